@@ -2074,6 +2074,9 @@ class TestByTestResult(TestResult):
         """
         super().__init__()
         self._on_test = on_test
+        # NOTE: In Python 3.12.1 skipped tests may not call startTest(); they
+        # are then reported without a start time.
+        self._start_time = None
 
     def startTest(self, test):
         super().startTest(test)
@@ -2096,6 +2099,7 @@ class TestByTestResult(TestResult):
             tags=tags,
             details=self._details,
         )
+        self._start_time = None
 
     def _err_to_details(self, test, err, details):
         if details is not None:
